@@ -12,6 +12,7 @@ import (
 	"errors"
 	"os"
 	"path/filepath"
+	"strings"
 
 	pipeline "github.com/buildkite/go-pipeline"
 	"github.com/buildkite/go-pipeline/jwkutil"
@@ -90,9 +91,33 @@ func c18Key(k obj, n int) jwk.Key {
 			fatal("harness: a key meant to be structurally valid is not: %v", e)
 		}
 	} else {
-		key, err = jwk.ParseKey([]byte(c18Invalid[kty]))
-		if err != nil {
-			fatal("harness: cannot build structurally invalid %s key: %v", kty, err)
+		key = nil
+		if private && kty != "oct" && n%3 != 0 {
+			// a PRIVATE key whose public members are intact and whose private member is the broken one: `d` empty,
+			// or (EC) shorter than the curve's size
+			good, err := jwk.FromRaw(c18RawKey(kty, n))
+			if err != nil {
+				fatal("FromRaw: %v", err)
+			}
+			b, _ := json.Marshal(good)
+			var members map[string]any
+			json.Unmarshal(b, &members)
+			d, _ := members["d"].(string)
+			if n%3 == 1 || kty != "EC" || len(d) < 8 {
+				members["d"] = ""
+			} else {
+				members["d"] = d[:len(d)-6]
+			}
+			b, _ = json.Marshal(members)
+			if k2, err := jwk.ParseKey(b); err == nil && k2.Validate() != nil {
+				key = k2
+			}
+		}
+		if key == nil {
+			key, err = jwk.ParseKey([]byte(c18Invalid[kty]))
+			if err != nil {
+				fatal("harness: cannot build structurally invalid %s key: %v", kty, err)
+			}
 		}
 		if key.Validate() == nil {
 			fatal("harness: a key meant to be structurally invalid validates (%s)", kty)
@@ -108,6 +133,10 @@ func c18Key(k obj, n int) jwk.Key {
 	}
 	return key
 }
+
+// c18Mix scatters a case number: TLC enumerates cases in a regular order, and a choice made by `n % k` would
+// always meet the same column of the table.
+func c18Mix(n int) int { return int((uint32(n) * 2654435761) >> 12) }
 
 func c18ErrClass(err error) string {
 	switch {
@@ -140,10 +169,14 @@ func runC18(args []string) {
 	nacc := 0
 	if cf := fl.str("cases", ""); cf != "" {
 		readNDJSON(cf, func(n int, c obj) {
+			if r, ok := c["rot"].(json.Number); ok {
+				r64, _ := r.Int64()
+				n = int(r64)
+			}
 			ev := obj{"c": c, "kind": c["table"]}
 			switch c["table"] {
 			case "validate":
-				key := c18Key(c["key"].(map[string]any), n)
+				key := c18Key(c["key"].(map[string]any), c18Mix(n))
 				p, msg := guarded(func() {
 					err := jwkutil.Validate(key)
 					ev["accepted"] = err == nil
@@ -161,8 +194,14 @@ func runC18(args []string) {
 				set := jwk.NewSet()
 				var keys []jwk.Key
 				for i, k := range setl {
-					key := c18Key(k.(map[string]any), n*7+i)
+					key := c18Key(k.(map[string]any), c18Mix(n*7+i))
 					keys = append(keys, key)
+					if c18Mix(n)%4 == 3 {
+						// private members (RFC 7517 allows any): a two-key file of several KiB is still a small key set
+						if err := key.Set("x-note", strings.Repeat("padding ", 640)); err != nil {
+							fatal("pad: %v", err)
+						}
+					}
 					if err := set.AddKey(key); err != nil {
 						fatal("AddKey: %v", err)
 					}
